@@ -130,7 +130,7 @@ def run(env):
     # ---- part A: bounded-exhaustive small types, sliced by shard (quick: every 4th of the slice, rotating with the seed)
     small = list(gen_types.enumerate_small())
     env.count("small_space", 0)
-    stride = 6 if env.quick() else 1
+    stride = 3 if env.quick() else 1
     g = gen_types.Gen(rng)
     idx = 0
     for i, (label, build) in enumerate(small):
@@ -149,7 +149,7 @@ def run(env):
         run_one(env, t, label, nopts=1 if env.quick() else 2, ndata=30)
     env.counters["small_space"] = len(small)
     # ---- part B: random programs
-    n = env.n(2600, 60000)
+    n = env.n(9000, 150000)
     for j in range(n):
         if env.out_of_time():
             env.notes.append("time cap reached in random part")
@@ -181,7 +181,7 @@ def finish_coverage(cov, counters, tier):
     cov["distinct_compiled_tree_signatures"] = sum(1 for k in counters if k.startswith("treesig:"))
     cov["counters"] = {k: v for k, v in cov["counters"].items() if not k.startswith("treesig:")}
     cov["exhaustive"] = False
-    cov["exhaustive_subspace"] = ("depth<=2 small grammar enumerated completely" if tier == "thorough" else "1/6 slice of the depth<=2 small grammar (rotating with VERIF_SEED)")
+    cov["exhaustive_subspace"] = ("depth<=2 small grammar enumerated completely" if tier == "thorough" else "1/3 slice of the depth<=2 small grammar (rotating with VERIF_SEED)")
 
 
 def replay(env, rep):
